@@ -258,7 +258,7 @@ func (ls *List) Map(ctx context.Context, fn Object) Object {
 			outputValue, err = callFunc(ctx, compiledFunc, mapArgs)
 		}
 		if err != nil {
-			return Errorf(err.Error())
+			return NewError(err)
 		}
 		if IsError(outputValue) {
 			return outputValue
@@ -285,7 +285,7 @@ func (ls *List) Filter(ctx context.Context, fn Object) Object {
 		filterArgs[0] = value
 		decision, err := callFunc(ctx, fn.(*Function), filterArgs)
 		if err != nil {
-			return Errorf(err.Error())
+			return NewError(err)
 		}
 		if IsError(decision) {
 			return decision
@@ -313,7 +313,7 @@ func (ls *List) Each(ctx context.Context, fn Object) Object {
 		eachArgs[0] = value
 		result, err := callFunc(ctx, fn.(*Function), eachArgs)
 		if err != nil {
-			return Errorf(err.Error())
+			return NewError(err)
 		}
 		if IsError(result) {
 			return result
